@@ -92,6 +92,17 @@ func runC05Kinds(cases []string, out *bufio.Writer, _ []string) {
 			cfg["appender.fa.fileName"] = "a.log"
 			cfg["logger.lg.appenderRef.ref"] = "fa"
 			cfg["logger.lg.type"] = "Logger"
+		case "sharedapp": // one file appender referenced by an asynchronous logger (which the events go through) and by four synchronous ones
+			cfg["appender.fa.type"] = "File"
+			cfg["appender.fa.fileDir"] = dir
+			cfg["appender.fa.fileName"] = "a.log"
+			cfg["logger.lg.appenderRef.ref"] = "fa"
+			cfg["logger.lg.type"] = "AsyncLogger"
+			cfg["logger.lg.bufferFullPolicy"] = pol
+			cfg["logger.lg.bufferSize"] = "60000" // the burst fits: most of it is still buffered when Destroy is called
+			for _, n := range []string{"a1", "a2", "zy", "zz"} { // names on both sides of "lg": whatever order Destroy walks the loggers in
+				cfg["logger."+n+".type"], cfg["logger."+n+".tags"], cfg["logger."+n+".appenderRef.ref"] = "Logger", "_c05"+n+"_*", "fa"
+			}
 		case "syncrollingapp":
 			cfg["appender.fa.type"] = "RollingFile"
 			cfg["appender.fa.fileDir"] = dir
